@@ -16,7 +16,7 @@ RULE = ("differential: node A runs a generated history H (SDO traffic incl. abor
         "compared as a multiset; timer-pool occupancy per owner class must be equal apart from A's live application timers, which keep their slots and their exact period through H, reset and P; the timer processing right after the reset must run nothing of the old communication; "
         "non-trivial = pair whose H changed >= 1 communication parameter or left a transfer/timer open; distinct by (configuration, H)")
 ASSUMPTIONS = ["equivalence is established for the probes in P only", "CONodeGetErr is excluded from P",
-               "H does not store an LSS configuration and ends in PRE-OPERATIONAL, OPERATIONAL or STOPPED", "no parameter groups (1010h/1011h) in these dictionaries (C17 covers them)"]
+               "H stores no LSS bit timing (node ids: yes) and ends in PRE-OPERATIONAL, OPERATIONAL or STOPPED", "no parameter groups (1010h/1011h) in these dictionaries (C17 covers them)"]
 VARIANTS = ["asan"]
 
 
@@ -155,6 +155,14 @@ def gen_history(rng, cfg, g):
             if d0 in ("15", "17"):
                 continue
             lines.append(l)
+        elif x < 0.575:
+            # a new node id is configured and stored through LSS: it becomes the active id with the reset (the fresh node finds it in
+            # the persistent store when it initialises)
+            if not any(l_.startswith("rx 7e5 8 17") for l_ in lines):
+                lines += ["rx 7e5 8 0401000000000000", "rx 7e5 8 11%02x000000000000" % rng.choice([2, 17, 99, 126, 127]), "rx 7e5 8 1700000000000000"]
+                if rng.random() < 0.7:
+                    lines.append("rx 7e5 8 0400000000000000")
+                interesting = True
         elif x < 0.61:
             lines.append(g.rpdo_frame())
         elif x < 0.67:
@@ -192,8 +200,8 @@ def gen_history(rng, cfg, g):
     return lines, interesting, len(apptags)
 
 
-def probes(rng, cfg):
-    nid = cfg.nodeid
+def probes(rng, cfg, nid=None):
+    nid = nid if nid is not None else cfg.nodeid
     rid = 0x600 + nid
     P = []
     def rd(idx, sub):
@@ -309,7 +317,11 @@ def run_pair(res, exe, rng, first, sched=False, cbreset=False):
     b = None
     app = AppTimers(hist)
     try:
+        stored = None
         for evs in a.batch(hist):
+            for c_ in S.cbs(evs, "lssstore"):
+                if c_[-1] != "FAIL":
+                    stored = (int(c_[1]), int(c_[2]))
             for iv in S.invs(evs):
                 res.violation("c20/inv-in-history", "invariant during H: " + iv, sim=a)
                 return
@@ -362,6 +374,9 @@ def run_pair(res, exe, rng, first, sched=False, cbreset=False):
             occ_before = a.occ()
             evs = a.rx(0, bytes([kind, nid]))
         boot = [x for x in S.txs(evs)]
+        if stored and stored[1]:
+            nid = stored[1]              # "a stored configuration becomes the active node id at the next reset"
+            res.counters["resets_activating_a_stored_node_id"] += 1
         if [(x[1], x[3]) for x in boot] != [(0x700 + nid, b"\x00")]:
             res.violation("c20/bootup", "reset emitted %r, reference one boot-up frame" % [("%x" % x[1], x[3].hex()) for x in boot], sim=a)
             return
@@ -378,9 +393,11 @@ def run_pair(res, exe, rng, first, sched=False, cbreset=False):
         a.cmd("geterr")
         tokens = a.dump()
         cfgB = clone_with_values(cfg, tokens)
+        if stored:
+            cfgB.lss = stored
         b = S.Sim(exe, cfgB)
         b.cmd("geterr")
-        P = probes(rng, cfg)
+        P = probes(rng, cfg, nid)
         for i, p in enumerate(P):
             ea = a.cmd(p)
             eb = b.cmd(p)
